@@ -108,18 +108,18 @@ type c19Req struct {
 
 type c19URL struct {
 	Scheme, Host, Path, Str string
-	HasUser               bool
-	User                  string
+	HasUser                 bool
+	User                    string
 }
 
 type c19Obs struct {
-	Reqs    []c19Req           `json:"reqs"`
-	Failed  bool               `json:"failed"`
-	Panic   string             `json:"panic,omitempty"`
-	FirstOK bool               `json:"first_ok"`
-	Parse   map[string]c19URL  `json:"-"`
-	Equal   [][2]string        `json:"-"`
-	Tab     map[string]string  `json:"-"`
+	Reqs    []c19Req          `json:"reqs"`
+	Failed  bool              `json:"failed"`
+	Panic   string            `json:"panic,omitempty"`
+	FirstOK bool              `json:"first_ok"`
+	Parse   map[string]c19URL `json:"-"`
+	Equal   [][2]string       `json:"-"`
+	Tab     map[string]string `json:"-"`
 }
 
 func (*c19) ID() string        { return "C19" }
@@ -154,7 +154,7 @@ var (
 func c19GetEnv() *c19Env {
 	c19Once.Do(func() {
 		e := &c19Env{}
-		root, err := os.MkdirTemp("", "hx-c19-")
+		root, err := os.MkdirTemp(c19TmpBase(), "hx-c19-")
 		if err != nil {
 			panic(err)
 		}
@@ -279,6 +279,19 @@ func c19IndexKey(repoURL string) (string, string) {
 		return "", iu
 	}
 	return u.Host + u.Path, iu
+}
+
+// c19TmpBase prefers a memory file system: DownloadTo writes through fileutil.AtomicWriteFile,
+// which is slow on a disk-backed /tmp
+func c19TmpBase() string {
+	if fi, err := os.Stat("/dev/shm"); err == nil && fi.IsDir() {
+		if f, err := os.CreateTemp("/dev/shm", "hx-probe-"); err == nil {
+			f.Close()
+			os.Remove(f.Name())
+			return "/dev/shm"
+		}
+	}
+	return ""
 }
 
 // ---------------------------------------------------------------- generator
